@@ -743,6 +743,9 @@ func corpus() []hist {
 		// a workload that never reported a status is marked too; a heartbeat coming back is ignored
 		// (the agent's reports stand), a second lapse marks again
 		{"unreported-and-returning-agent", []action{an(0), start, create(0), create(0), report(0, true, true), lapse(0), report(0, true, true), hb(0), report(1, true, false), lapseRevoke(0)}},
+		// the same watcher loses the lock and takes it again: its examination of the current statuses
+		// must run again (a node whose handler failed is still without status and not yet marked)
+		{"reacquire-examines-again", []action{an(0), an(1), create(0), create(1), report(0, true, true), report(1, true, true), start, lapseFail(0), expire(0), lapse(1)}},
 		{"handover", []action{an(0), an(1), an(2), create(0), create(1), create(2), report(0, true, true), report(1, true, true), report(2, true, true), start, start, lapse(1), stop(0), lapse(2), lapse(0)}},
 	}
 }
@@ -799,7 +802,12 @@ func (g gen) history(name string, n int) hist {
 				started = append(started, nw)
 				nw++
 			} else if len(started) == 1 && !heldW[started[0]] && g.rng.Intn(2) == 0 {
-				// the only watcher loses its lock lease and has to take it again
+				// the only watcher loses its lock lease and has to take it again; half of the time a
+				// node is left without status and unmarked (its handler failed) just before
+				if alive[node] && g.rng.Intn(2) == 0 {
+					acts = append(acts, lapseFail(node))
+					delete(alive, node)
+				}
 				acts = append(acts, expire(started[0]))
 			} else if len(started) > 0 && heldW[started[0]] {
 				acts = append(acts, release(started[0]))
@@ -905,6 +913,6 @@ func TestC28(t *testing.T) {
 	if dropped*4 > len(hs) {
 		thin = fmt.Sprintf("THIN COVERAGE: %d of %d histories dropped because the machine was too loaded (timers > 400 ms late); ", dropped, len(hs))
 	}
-	r.Finish(thin + "corpus (8 histories incl. the start-window witness, lock expiry, hand-over to a held watcher, an injected SetNode failure) then random histories of 7-12 steps over 3 nodes, <=6 workloads, <=2 watchers " +
+	r.Finish(thin + "corpus (9 histories incl. the start-window witness, lock expiry, hand-over to a held watcher, an injected SetNode failure) then random histories of 7-12 steps over 3 nodes, <=6 workloads, <=2 watchers " +
 		"(create | report | heartbeat | lapse by delete or lease revoke, 1 in 8 with the handler's SetNode failing | start | start held | release | expire | stop); non-trivial = some workload ends reported down")
 }
